@@ -4,7 +4,12 @@
 
 package rating
 
-import "github.com/free5gc/chf/pkg/factory"
+import (
+	charging_datatype "github.com/free5gc/chf/ccs_diameter/datatype"
+	"github.com/free5gc/chf/pkg/factory"
+)
+
+var _ = charging_datatype.REQ_SUBTYPE_RESERVE
 
 // ghostLiveConns: Diameter connections opened by DialNetworkTLS and not yet closed (updated by the
 // assumed contracts of sm.Client.DialNetworkTLS and diam.Conn.Close)
@@ -15,6 +20,19 @@ var GhostRequests int
 
 var _ = factory.ChfConfig // the contracts below mention the configuration
 
+// Ghost model of the rating peer (C01, C06, C08): the integer unit cost it stores per rating group
+// (service identifier), and whether some request got no usable answer. The assumed clauses of
+// SendServiceUsageRequest below restate the contract proved for the server (pkg/rf handleSUR$1, C08).
+var GhostUnitCost map[uint32]uint32
+var GhostFailed bool
+
+func specAllowed(quota, uc uint32) uint32 {
+	if uc == 0 {
+		return 0xffffffff
+	}
+	return quota / uc
+}
+
 // A completed request leaves no connection behind, on every return path (C18).
 //@ func SendServiceUsageRequest [C18]
 //@   requires ue != nil && sur != nil && ue.RatingClient != nil
@@ -23,4 +41,9 @@ var _ = factory.ChfConfig // the contracts below mention the configuration
 //@   ensures assumed GhostRequests >= old(GhostRequests)
 //@   ensures [C11 C18] (result1 == nil) == (result0 != nil)
 //@   ensures assumed [C11] result1 == nil ==> result0.ServiceRating != nil && result0.ServiceRating.MonetaryTariff != nil && result0.ServiceRating.MonetaryTariff.RateElement != nil && result0.ServiceRating.MonetaryTariff.RateElement.UnitCost != nil
-//@   modifies global(&GhostRequests), field(sur, DestinationRealm), field(sur, DestinationHost)
+//@   ensures assumed [C01 C06 C08] result1 != nil ==> GhostFailed
+//@   ensures assumed [C01 C06 C08] result1 == nil ==> GhostFailed == old(GhostFailed)
+//@   ensures assumed [C01 C06 C08] result1 == nil && sur.ServiceRating != nil ==> result0.ServiceRating.MonetaryTariff.RateElement.UnitCost.Exponent == 0 && uint32(result0.ServiceRating.MonetaryTariff.RateElement.UnitCost.ValueDigits) == GhostUnitCost[uint32(sur.ServiceRating.ServiceIdentifier)] && result0.ServiceRating.MonetaryTariff.RateElement.UnitCost.ValueDigits >= 0 && result0.ServiceRating.MonetaryTariff.RateElement.UnitCost.ValueDigits < 1<<32
+//@   ensures assumed [C01 C06 C08] result1 == nil && sur.ServiceRating != nil && sur.ServiceRating.RequestSubType == charging_datatype.REQ_SUBTYPE_RESERVE ==> uint32(result0.ServiceRating.AllowedUnits) == specAllowed(uint32(sur.ServiceRating.MonetaryQuota), GhostUnitCost[uint32(sur.ServiceRating.ServiceIdentifier)])
+//@   ensures assumed [C01 C06 C08] result1 == nil && sur.ServiceRating != nil && sur.ServiceRating.RequestSubType == charging_datatype.REQ_SUBTYPE_DEBIT ==> uint32(result0.ServiceRating.Price) == uint32(sur.ServiceRating.ConsumedUnits)*GhostUnitCost[uint32(sur.ServiceRating.ServiceIdentifier)]
+//@   modifies global(&GhostRequests), field(sur, DestinationRealm), field(sur, DestinationHost), global(&GhostFailed)
